@@ -163,7 +163,13 @@ class Loop(abc.ABC, Generic[_T]):
         # Clearing the current handle when it is also the next one
         # means reloading it
         same_handle = world_handle is self._current_world_handle
-        if clear_next or (clear_current and same_handle):
+        # ... unless it was reloaded already (it holds a world other than
+        # the one being left, e.g. the program emptied it itself and
+        # switch() then loaded the world to enter)
+        reload_current = (clear_current and same_handle
+                          and (not world_handle.cached
+                               or world_handle() is self._current_world))
+        if clear_next or reload_current:
             world_handle.clear()
 
         # Load before committing: if loading raises (e.g. Quit) world
